@@ -66,14 +66,16 @@ def main():
         if isinstance(e, S.CallErr) and e.k in batched:
             return ''    # an exception object RETURNED inside a batch result (the harness's device for an
             #              element-wise failure in a batch) was never raised by the worker: out of C04's scope
-        want = 'preprocess' if isinstance(e, S.PreErr) else ('_one' if isinstance(e, S.CallErr) else 'call')
+        # the innermost frame is the failure site, whatever the depth of the stack above it (procworkers._descend)
+        want = '_failure_site'
+        outer = 'preprocess' if isinstance(e, S.PreErr) else ('_one' if isinstance(e, S.CallErr) else 'call')
         text = ''
         if is_remote_exception(e):
             text = get_remote_traceback(e)
         elif e.__traceback__ is not None:
             text = ''.join(traceback.format_exception(type(e), e, e.__traceback__))
-        if f'in {want}' not in text or type(e).__name__ not in text:
-            return f'{type(e).__name__}{e.args}: no failure-site frame `in {want}` / class name in the traceback text: {text[-300:]!r}'
+        if f'in {want}' not in text or f'in {outer}' not in text or type(e).__name__ not in text:
+            return f'{type(e).__name__}{e.args}: no failure-site frame `in {want}` / worker frame `in {outer}` / class name in the traceback text: {text[-300:]!r}'
         return ''
 
     with Server(build(case['tree']), capacity=case.get('cap', 8)) as srv:
